@@ -39,8 +39,24 @@ def obligations(tier):
               bounds='year 1..9999, month -1..14, day -1..33, hour -1..25, minute -1..61',
               encodes=['recognizers_date_time.date_time.utilities:DateUtils.safe_create_from_value', 'recognizers_date_time.date_time.utilities:DateUtils.is_valid_date',
                        'recognizers_date_time.date_time.utilities:DateUtils.is_valid_time'])]
+    zh_fixed = ['万圣节', '中秋', '中秋节', '五一', '儿童节', '元宵节', '元旦', '元旦节', '光棍节', '劳动节', '双十一', '国庆节', '圣诞节', '女生节', '妇女节', '平安夜', '建军节', '情人节', '愚人节', '教师节',
+                '新年', '春节', '植树节', '清明', '清明节', '端午', '端午节', '重阳节', '除夕', '青年节']
+    zh_var = ['感恩节', '母亲节', '父亲节']
+    hs = [{'name': n} for n in (zh_fixed if tier == 'thorough' else zh_fixed[::3] + ['除夕', '春节']) + zh_var]
+    hs += [{'name': n, 'rel': r} for n in ('除夕', '圣诞节', '母亲节') for r in ('明年', '去年', '今年')]
+    obs.append(Ob('O11.6-chinese-holiday-year', 'sx', 'harness.C11zh:h_holiday_year', twin='harness.C11zh:t_holiday_year', slices=hs, timeout=t,
+                  descr='Chinese holiday with an explicit or relative year through the real ChineseHolidayParser._match2date: the TIMEX year is the stated year and, when the TIMEX is a definite date, the resolved value equals it',
+                  bounds='year 1900..2099 (digit placeholders), reference year 1950..2090; one slice per holiday name of the parser\'s own tables (every third fixed holiday in quick) and relative-year word',
+                  encodes=['recognizers_date_time.date_time.chinese.holiday_parser:ChineseHolidayParser._match2date', 'recognizers_date_time.date_time.chinese.holiday_parser:ChineseHolidayParser.__convert_year'],
+                  stubs=['the regex match object is a stub with the groups holiday / year / yearrel']))
+    rd = [{'word': w, 'unit': 'H', 'nmax': 6 if tier == 'quick' else 40} for w in ('next', 'past')]
+    obs.append(Ob('O11.7-relative-duration', 'sx', 'harness.C10b:h_relative_duration', twin='harness.C10b:t_relative_duration', slices=rd, timeout=max(t, 240),
+                  descr="definite TIMEX = value for reference-relative date-time ranges: 'next / past N hours' through the real BaseDateTimePeriodParser.parse_duration around a symbolic reference instant: "
+                        'the TIMEX endpoints are exactly the resolved start and end (also across midnight, month and year ends)',
+                  bounds='reference = every second 1950..2090; N = 1..6 hours (thorough 1..40)', encodes=['recognizers_date_time.date_time.base_datetimeperiod:BaseDateTimePeriodParser.parse_duration'],
+                  stubs=['duration extractor / parser return one duration of N hours']))
     from props import _corpus
-    slices, counts, region = _corpus.slices(tier, 'timex', quick_step={'en-us': 18, 'es-es': 24, 'fr-fr': 24})
+    slices, counts, region = _corpus.slices(tier, 'timex', quick_cap={'en-us': 50, 'es-es': 25, 'fr-fr': 25, 'nl-nl': 25, 'zh-cn': 25, '*': 15})
     obs.append(Ob('O11.4-corpus-wellformed', 'sx', 'harness.apidt:h_wellformed', twin=None, slices=slices, timeout=90 if tier == 'quick' else 240,
                   descr='API level, symbolic reference datetime: for each DateTimeModel Specs input of each culture (a pool of realistic queries; expected outputs not consulted) and EVERY reference datetime, '
                         'every value of every returned entity has the shape its type promises (valid calendar dates / times, type name = type of the values, pure date ranges with start before end) '
